@@ -653,7 +653,7 @@ def rule_N7(ctx, rule: str = "N7") -> None:
             ctx.inconclusive(rule, "decode_varint:position", f"scan not of the form `b = {buf}[{pos}]; {pos} += 1` once per iteration with `return value, {pos}`", mod.loc(dv))
     # (d) raw covers the value
     first = lv.args.args[1].arg if len(lv.args.args) > 1 else None
-    paths = Interp(mod, fork_ifexp=True).run(lv)
+    paths = Interp(mod, fork_ifexp=True, fork_while=True).run(lv)
     ctx.count(len(paths))
     missing = None
     n_ret = 0
@@ -678,6 +678,31 @@ def rule_N7(ctx, rule: str = "N7") -> None:
             sv.add("first")
         if not sv <= sr:
             missing = missing or (sorted(sv - sr), show(raw))
+    # (e) a byte handed in by the caller is consumed whenever there is one - whatever its value (0x00 is the varint 0)
+    if first:
+        skipped = None
+        n_first = 0
+        for p in paths:
+            if p.outcome != "return" or p.value is None or p.value[0] != "tuple" or len(p.value[1]) != 2:
+                continue
+            if p.valuation.get(N(first)) is not True:
+                continue
+            n_first += 1
+            val = p.value[1][0]
+            if not any(x == N(first) for x in walk(val)):
+                skipped = skipped or {show(k): v for k, v in p.valuation.items()}
+        if skipped:
+            ctx.refuted(rule, "load_varint:first-byte-consumed", "value-dependent", mod.loc(lv),
+                        f"on the path {skipped} a first byte was handed in but the value is built without it: whether the supplied byte is used depends on its value "
+                        "(a falsy 0x00, the complete varint 0, is taken for 'nothing supplied' and the next varint of the stream is decoded instead)",
+                        "load_varint(BytesIO(b'\\x96\\x01'), b'\\x00')")
+        elif n_first:
+            ctx.proved(rule, "load_varint:first-byte-consumed", mod.loc(lv), f"{n_first} paths with a supplied first byte")
+        elif n_ret and all(any(x == N(first) for x in walk(p.value[1][0])) for p in paths
+                           if p.outcome == "return" and p.value is not None and p.value[0] == "tuple" and len(p.value[1]) == 2):
+            ctx.proved(rule, "load_varint:first-byte-consumed", mod.loc(lv), "the supplied byte is part of every returned value (`first or read`)")
+        else:
+            ctx.inconclusive(rule, "load_varint:first-byte-consumed", "no returning path decides whether a first byte was supplied", mod.loc(lv))
     if not n_ret:
         ctx.inconclusive(rule, "load_varint:raw-covers-value", "no path returning (value, raw)", mod.loc(lv))
     elif missing:
